@@ -185,6 +185,10 @@ def gen_messages(tier, seed):
                                      time_limit=2, types_only=to, filter=f, attributes=["cn", "*", "1.1"]))
     out.append(SearchResultReference(message_id=1, controls=[], uris=[]))
     out.append(SearchResultEntry(message_id=1, controls=[], object_name="", attributes=[]))
+    # names / values that differ only in case or repeat (a decoder that normalises, interns or de-duplicates would change them)
+    out.append(SearchResultEntry(message_id=1, controls=[], object_name="CN=X", attributes=[PartialAttribute("cn", [b"v"]), PartialAttribute("CN", [b"V"]), PartialAttribute("cn", [b"v"])]))
+    out.append(SearchResultEntry(message_id=2, controls=[], object_name="cn=x", attributes=[PartialAttribute("Cn", [b"v", b"v"])]))
+    out.append(SearchResultReference(message_id=1, controls=[], uris=["ldap://A", "ldap://a", "ldap://A"]))
     for sc in SearchScope:
         for dp in DereferencingPolicy:
             out.append(SearchRequest(message_id=1, controls=[], base_object="", scope=sc, deref_aliases=dp, size_limit=0, time_limit=0, types_only=False, filter=FilterPresent("a"), attributes=[]))
@@ -323,6 +327,16 @@ def main():
             assert norm(rfc.decode(rfc.encode(ab), strict=True)) == norm(ab), ("oracle self-check failed", m)
     for m in msgs:
         check_message(m, tier)
+    # decoding has no memory: the same octets decode to the same value whatever was decoded before (second pass, reverse order)
+    for m in reversed(msgs):
+        try:
+            data = bytes(m.pack(OPT))
+            back, _ = library_decode(data)
+        except Exception:
+            continue
+        n_eval["C01"] += 1
+        if not eq_msg(back, m):
+            rec("C01", "unpack(pack(m)) == m in every field", m, f"second pass (after other messages were decoded): decoded {back!r}"[:400])
     total = sum(n_eval.values())
     out = {"evaluations": total, "distinct_nontrivial": total, "per_property": n_eval, "messages": len(msgs),
            "violations": list(known_seen.values()) + violations, "wall_s": round(time.time() - t0, 2),
